@@ -61,7 +61,7 @@ Inductive gv : Type :=
 | GMap (m : list (str * gv))           (* non-nil map, insertion order *)
 | GStruct (fs : list (str * gv)).      (* by JSON field name, schema order *)
 
-Fixpoint zero (sh : shape) : gv :=
+Fixpoint gzero (sh : shape) : gv :=
   match sh with
   | SStr => GStr []
   | SInt => GInt 0%Z
@@ -72,7 +72,7 @@ Fixpoint zero (sh : shape) : gv :=
       GStruct ((fix go (fs : list (str * bool * shape)) : list (str * gv) :=
                   match fs with
                   | [] => []
-                  | (n, _, s) :: fs' => (n, zero s) :: go fs'
+                  | (n, _, s) :: fs' => (n, gzero s) :: go fs'
                   end) fs)
   end.
 
@@ -122,7 +122,7 @@ Fixpoint decode (strict : bool) (sh : shape) (old : gv) (j : jv) {struct j} : re
   | JNull =>
       (* literalStore 'n': SetZero for interface/map/slice, ignored otherwise *)
       match sh with
-      | SAny | SSlice _ | SMap _ => Ok (zero sh)
+      | SAny | SSlice _ | SMap _ => Ok (gzero sh)
       | SStr | SInt | SStruct _ => Ok old
       end
   | JBool _ =>
@@ -156,7 +156,7 @@ Fixpoint decode (strict : bool) (sh : shape) (old : gv) (j : jv) {struct j} : re
                      match l with
                      | [] => Ok ([], bk)
                      | x :: l' =>
-                         do v <- decode strict e (hd (zero e) bk) x;
+                         do v <- decode strict e (hd (gzero e) bk) x;
                          do r <- go l' (tl bk);
                          Ok (v :: fst r, snd r)
                      end) l backing with
@@ -172,13 +172,13 @@ Fixpoint decode (strict : bool) (sh : shape) (old : gv) (j : jv) {struct j} : re
       | SAny => Ok (GAny (Some j))
       | SMap e =>
           (* a nil map is made; an existing one keeps its entries; each member is
-             decoded into a fresh zero element and stored (SetMapIndex) *)
+             decoded into a fresh gzero element and stored (SetMapIndex) *)
           let m0 := match old with GMap m0 => m0 | _ => [] end in
           match (fix go (m : list (str * jv)) (cur : list (str * gv)) : res (list (str * gv)) :=
                    match m with
                    | [] => Ok cur
                    | (k, x) :: m' =>
-                       do v <- decode strict e (zero e) x;
+                       do v <- decode strict e (gzero e) x;
                        go m' (ainsert cur k v)
                    end) m m0 with
           | Ok r => Ok (GMap r)
@@ -188,7 +188,7 @@ Fixpoint decode (strict : bool) (sh : shape) (old : gv) (j : jv) {struct j} : re
       | SStruct fs =>
           let cur0 := match old with
                       | GStruct c => c
-                      | _ => match zero sh with GStruct c => c | _ => [] end
+                      | _ => match gzero sh with GStruct c => c | _ => [] end
                       end in
           match (fix go (m : list (str * jv)) (cur : list (str * gv)) : res (list (str * gv)) :=
                    match m with
@@ -197,7 +197,7 @@ Fixpoint decode (strict : bool) (sh : shape) (old : gv) (j : jv) {struct j} : re
                        match find_field fs k with
                        | Some f =>
                            do v <- decode strict (f_shape f)
-                                     (match alookup cur (f_name f) with Some o => o | None => zero (f_shape f) end) x;
+                                     (match alookup cur (f_name f) with Some o => o | None => gzero (f_shape f) end) x;
                            go m' (aset cur (f_name f) v)
                        | None => if strict then Err e_decode else go m' cur
                        end
@@ -227,7 +227,7 @@ Definition is_empty_val (v : gv) : bool :=
   end.
 
 Definition field_val (fs : list (str * gv)) (n : str) (sh : shape) : gv :=
-  match alookup fs n with Some v => v | None => zero sh end.
+  match alookup fs n with Some v => v | None => gzero sh end.
 
 (* maps are written in the order of the association list (encoding/json sorts
    the keys: the theorems quantify over member permutations of the tree) *)
@@ -368,11 +368,11 @@ Definition load_payload (j : jv) : res gpayload :=
       | Some (JStr t) =>
           if str_eqb t v_link then
             do _ <- check_required m (struct_fields sh_link);
-            do v <- decode true sh_link (zero sh_link) j;
+            do v <- decode true sh_link (gzero sh_link) j;
             Ok (GLink v)
           else if str_eqb t v_layout then
             do _ <- check_required m (struct_fields sh_layout);
-            do v <- decode true sh_layout (zero sh_layout) j;
+            do v <- decode true sh_layout (gzero sh_layout) j;
             Ok (GLayout v)
           else Err e_unknown_type
       | _ => Err e_unknown_type
@@ -425,7 +425,7 @@ Section Loader.
         if has_key m k_payloadType then
           if raw_nil m k_payload || raw_nil m k_signatures then Err e_parts
           else
-            do env <- decode false sh_envelope (zero sh_envelope) (JObj m);
+            do env <- decode false sh_envelope (gzero sh_envelope) (JObj m);
             if negb (str_eqb (struct_str env k_payloadType) c_PayloadType) then Err e_payload_type
             else load_envelope env
         else load_legacy GNil m
